@@ -126,6 +126,9 @@ func c18(r *Report) propMeta {
 	r.Rule("C18.R8", "store-key agreement: every point read/delete addresses a written key family")
 	r.StoreKeyAgreement("store-keys", "bandtss", 8, nil)
 
+	r.Rule("C18.R9", "E19 constructors of x/bandtss/types store their inputs unchanged")
+	r.CtorFaithful("ctor", faithfulCtors["bandtss"]...)
+
 	return propMeta{
 		Decided: []string{
 			"R1 SetCurrentGroup is called only by ExecuteGroupTransition (and genesis), itself only by bandtss EndBlocker under ShouldExecuteGroupTransition's ok; transitions are created only by the two governance handlers; store keys have single writers",
@@ -136,6 +139,7 @@ func c18(r *Report) propMeta {
 			"R6 the incoming-group RequestSigning runs on a CacheContext whose writeFn is gated by err == nil and whose failure does not abort the request; GetIncomingGroupID non-zero only under WAITING_EXECUTION",
 			"R7 DeleteMembers(current) on execution; AddMembers(incoming) precedes every WAITING_EXECUTION",
 			"R8 every KV-store Get/Has/Delete of x/bandtss uses a key builder of x/bandtss/types that some Set of the module also uses (a probe of an iteration prefix or of a sibling family is always-empty state)",
+			"R9 the literal constructors of x/bandtss/types (frozen list) store each parameter or a constant unchanged in the record they build: what a handler validated is what is stored",
 		},
 		Undecided: []string{"interleavings of callbacks, deadlines and concurrent requests (schedule/history)", "that tss actually invokes the callbacks it should"},
 		Assume:    []string{"VTA resolves the tss callback router to bandtss TSSCallback", "msg handlers atomic; governance authority check by address equality"},
